@@ -128,59 +128,257 @@ def initial_capacity(F):
     return int(c), "init_table -> with_capacity(%d) -> capacity %d" % (lit, c)
 
 
-def growth_only_under_needs_grow(F, maygc):
-    """insert path of the hash part: CaoLangTable::insert::_insert -> CaoHashMap::insert -> insert_with_hint; the only
-    may-collect callee of insert_with_hint is grow, called under `if needs_grow(self.count, self.capacity)`."""
-    iw = F.fn("collections::hash_map::CaoHashMap::insert_with_hint")
-    others = []
-    for bi, t in mu.calls(iw):
-        why = maygc.call_may_gc(t)
-        if why and not any(n.endswith("CaoHashMap::grow") for n in callee_names(t["func"])):
-            others.append(why)
-    if others:
-        return False, "insert_with_hint may allocate outside grow(): %s" % sorted(set(others))
-    anc = hu.control_ancestors(iw.hir["body"])
-    ifs = {id(x): x for x in hir_walk(iw.hir["body"]) if x.get("k") == "if"}
-    grows = [x for x in hir_walk(iw.hir["body"]) if x.get("k") in ("mcall", "call") and any(n.endswith("CaoHashMap::grow") for n in hir_callee(x))]
-    if not grows:
-        return False, "insert_with_hint does not call grow()"
-    for gcall in grows:
-        guards = [ifs[nid] for kind, nid in anc.get(id(gcall), ()) if kind == "then" and nid in ifs]
-        # the innermost enclosing `if` is the growth test; it must only look at count and capacity
-        if not guards:
-            return False, "grow() is called unconditionally"
-        g = guards[-1]
-        fields = set(y["name"] for y in hir_walk(g["cond"]) if y.get("k") == "field")
-        if not fields <= {"count", "capacity"} or not fields:
-            return False, "the growth test of insert_with_hint does not depend on count and capacity only (%s)" % sorted(fields)
-    # the wrappers in between add no allocation of their own
-    for name in ("collections::hash_map::CaoHashMap::insert", "vm::runtime::cao_lang_table::CaoLangTable::insert::_insert"):
-        g = F.fn(name)
-        for bi, t in mu.calls(g):
-            why = maygc.call_may_gc(t)
-            nm = callee_names(t["func"])
-            if why and not any(n.endswith("CaoHashMap::insert_with_hint") or n.endswith("CaoHashMap::insert") for n in nm):
-                return False, "%s may allocate outside the hash part's insert: %s" % (g.name, why)
-    return True, "the only allocation of the insert path is grow() under a test of count and capacity"
+# ---------------------------------------------------------------------------------------------------
+# guards: the conditions under which a statement of a function runs, read from the HIR
+# ---------------------------------------------------------------------------------------------------
+
+def _leaves(e):
+    """does control always leave the function when this expression has been evaluated (its last action is `return`)?"""
+    e = hir_strip(e)
+    if e is None:
+        return False
+    k = e.get("k")
+    if k == "ret":
+        return True
+    if k == "block":
+        bl = e["block"]
+        for st in bl["stmts"]:
+            if st["k"] in ("semi", "expr") and _leaves(st["e"]):
+                return True
+        return bl.get("expr") is not None and _leaves(bl["expr"])
+    if k == "if":
+        return e.get("else") is not None and _leaves(e["then"]) and _leaves(e["else"])
+    return False
 
 
-def needs_grow(F, k, cap):
-    """does the k-th insertion of a new key into a map of capacity `cap` (holding k-1 entries) grow it? The growth test of
-    insert_with_hint is evaluated as written; whether it sees the count before or after the increment is read from the
-    position of `self.count += 1`."""
-    iw = F.fn("collections::hash_map::CaoHashMap::insert_with_hint")
-    incs = [x.get("ln") for x in hir_walk(iw.hir["body"]) if x.get("k") == "assign_op" and str(x.get("op", "")).startswith("Add")
+def _path_to(e, target, acc):
+    """root-to-target list of frames: ('if', node, branch taken) / ('stmt', block, index of the statement)"""
+    if e is None:
+        return False
+    if e is target:
+        return True
+    k = e.get("k")
+    if k == "if":
+        if _path_to(e["cond"], target, acc):
+            return True
+        for key, pol in (("then", True), ("else", False)):
+            if e.get(key) is not None:
+                acc.append(("if", e, pol))
+                if _path_to(e[key], target, acc):
+                    return True
+                acc.pop()
+        return False
+    if k in ("block", "loop"):
+        bl = e["block"] if k == "block" else e["body"]
+        for i, st in enumerate(bl["stmts"]):
+            xs = []
+            if st["k"] == "let":
+                if st.get("init"):
+                    xs.append(st["init"])
+                if st.get("els"):
+                    xs.append({"k": "block", "block": st["els"]})
+            elif st["k"] in ("expr", "semi"):
+                xs.append(st["e"])
+            for x in xs:
+                acc.append(("stmt", bl, i))
+                if _path_to(x, target, acc):
+                    return True
+                acc.pop()
+        if bl.get("expr") is not None:
+            acc.append(("stmt", bl, len(bl["stmts"])))
+            if _path_to(bl["expr"], target, acc):
+                return True
+            acc.pop()
+        return False
+    from cao.facts import hir_children
+    for c in hir_children(e):
+        if _path_to(c, target, acc):
+            return True
+    return False
+
+
+def guards_of(f, node):
+    """The conditions that hold whenever `node` (an expression of f) is evaluated, nearest first:
+    [(condition expression, value it has, the `if`)]. Two idioms are the same guard: `if c { .. node .. }` and an earlier
+    `if !c { return .. }` in an enclosing statement list (symmetrically for the else branch)."""
+    acc = []
+    if not _path_to(f.hir["body"], node, acc):
+        return []
+    out = []
+    for fr in reversed(acc):
+        if fr[0] == "if":
+            out.append((fr[1]["cond"], fr[2], fr[1]))
+        else:
+            _k, bl, i = fr
+            for j in range(min(i, len(bl["stmts"])) - 1, -1, -1):
+                st = bl["stmts"][j]
+                if st["k"] not in ("semi", "expr"):
+                    continue
+                x = hir_strip(st["e"])
+                if x is None or x.get("k") != "if":
+                    continue
+                t_out = _leaves(x["then"])
+                e_out = x.get("else") is not None and _leaves(x["else"])
+                if t_out and not e_out:
+                    out.append((x["cond"], False, x))
+                elif e_out and not t_out:
+                    out.append((x["cond"], True, x))
+    return out
+
+
+def cond_fields(f, cond, depth=0):
+    """(names of the `self.<field>`s a condition reads, does it read anything else that varies: a local without a single
+    initialiser, a parameter) - single-assignment locals are followed to their initialiser"""
+    inits = hu.let_inits(f)
+    fields, opaque = set(), False
+    seen = set()
+
+    def rec(e, d):
+        nonlocal opaque
+        for y in hir_walk(e):
+            if y.get("k") == "field":
+                fields.add(y["name"])
+            elif y.get("k") == "path" and y["path"]["res"].get("k") == "local":
+                r = y["path"]["res"]
+                if r.get("name") == "self":
+                    continue
+                ins = inits.get(r["id"], [])
+                if len(ins) == 1 and d < 6:
+                    if r["id"] not in seen:
+                        seen.add(r["id"])
+                        rec(ins[0], d + 1)
+                else:
+                    opaque = True
+    rec(cond, depth)
+    return fields, opaque
+
+
+def count_incs(f):
+    return [x.get("ln") for x in hir_walk(f.hir["body"]) if x.get("k") == "assign_op" and str(x.get("op", "")).startswith("Add")
             and hir_strip(x["l"]).get("k") == "field" and hir_strip(x["l"])["name"] == "count"]
-    grow_name = "collections::hash_map::CaoHashMap::grow"
-    test = None
-    for x in hir_walk(iw.hir["body"]):
-        if x.get("k") == "if" and any(y.get("k") in ("mcall", "call") and any(n == grow_name for n in hir_callee(y)) for y in hir_walk(x["then"])):
-            test = x
-    if test is None:
-        raise bs.Unknown("growth test of insert_with_hint")
-    after_inc = any(l is not None and l < (test.get("ln") or 0) for l in incs)
-    seen = k if after_inc else k - 1
-    return bool(FEv(F, iw, {}, {"count": seen, "capacity": cap}).ev(test["cond"]))
+
+
+# ---------------------------------------------------------------------------------------------------
+# G: which tests decide whether an insertion through CaoLangTable::insert allocates
+# ---------------------------------------------------------------------------------------------------
+
+TABLE_INSERT = "vm::runtime::cao_lang_table::CaoLangTable::insert"
+
+
+def _hir_may_gc(maygc, x):
+    c = x.get("callee")
+    if c is None and x.get("k") == "call" and x["f"].get("k") == "path":
+        c = x["f"]["path"].get("callee")
+    if c is None:
+        names = hir_callee(x)
+        if not names:
+            return None
+        c = {"path": names[0]}
+    return maygc.call_may_gc({"func": c, "arg_tys": []})
+
+
+def allocation_guards(F, maygc):
+    """Every chain of calls from CaoLangTable::insert (the function that turns a guard into a plain Value) down to a call
+    that may collect and whose callee has no body in the crate's table code to descend into (the allocator). Each chain
+    must pass a *growth test*: a guard, in one of the functions of the chain, that reads nothing but the `count` and
+    `capacity` of the hash part. The functions in between are found by following the calls, whatever they are named.
+    -> (True, [test..], text) | (False, None, why); test = dict(fn, cond, pol, after_inc, ln)"""
+    start = F.fn(TABLE_INSERT)
+    tests, seen_tests = [], set()
+    problems = []
+    visited_fns = []
+
+    def body_fns(g):
+        return [g]
+
+    def descend(g, chain, depth):
+        if depth > 8:
+            problems.append("call chain below %s too deep" % start.name)
+            return
+        if g.short not in [v.short for v in visited_fns]:
+            visited_fns.append(g)
+        hir_lines = set()
+        for x in hir_walk(g.hir["body"]):
+            if x.get("k") not in ("call", "mcall"):
+                continue
+            why = _hir_may_gc(maygc, x)
+            if not why:
+                continue
+            hir_lines.update(hir_callee(x))
+            callee = None
+            for n in hir_callee(x):
+                h = F.fn(n, required=False)
+                if h is not None and h.hir is not None and not h.is_closure and h.short != g.short and \
+                        h.short not in [c[0].short for c in chain] and (h.short.startswith("collections::hash_map::") or h.short.startswith("vm::runtime::cao_lang_table::")):
+                    callee = h
+                    break
+            link = chain + [(g, x)]
+            if callee is not None:
+                descend(callee, link, depth + 1)
+                continue
+            # a leaf: the allocation itself. Look for the growth test, innermost function first
+            found = None
+            for li in range(len(link) - 1, -1, -1):
+                fn_i, node_i = link[li]
+                for cond, pol, ifn in guards_of(fn_i, node_i):
+                    fields, opaque = cond_fields(fn_i, cond)
+                    if fields and fields <= {"count", "capacity"} and not opaque:
+                        found = (li, fn_i, cond, pol, ifn)
+                        break
+                if found:
+                    break
+            if found is None:
+                problems.append("%s may allocate (%s) on a path with no test of count and capacity: %s" % (
+                    g.name, why, " -> ".join(c[0].name for c in link)))
+                continue
+            li, fn_i, cond, pol, ifn = found
+            if id(ifn) in seen_tests:
+                continue
+            seen_tests.add(id(ifn))
+            after = any(l is not None and l < (ifn.get("ln") or 0) for l in count_incs(fn_i))
+            for lj in range(li):
+                fn_j, node_j = link[lj]
+                after = after or any(l is not None and l < (node_j.get("ln") or 0) for l in count_incs(fn_j))
+            tests.append({"fn": fn_i, "cond": cond, "pol": pol, "after_inc": after, "ln": ifn.get("ln")})
+        # every may-collect call of the MIR must have been seen in the HIR (closures of g included)
+        for gg in [g] + F.closures_of.get(g.short, []):
+            if not gg.mir:
+                continue
+            for bi, t in mu.calls(gg):
+                if maygc.call_may_gc(t) and not (set(callee_names(t["func"])) & hir_lines):
+                    problems.append("%s: a call that may collect (line %s) is not accounted for" % (g.name, t.get("ln")))
+
+    descend(start, [], 0)
+    if problems:
+        return False, None, problems[0]
+    if not tests:
+        return False, None, "no allocation found below %s" % start.name
+    return True, tests, ("the only allocation below CaoLangTable::insert (%s) happens under a test of count and capacity (%s)" % (
+        " -> ".join(v.name for v in visited_fns), ", ".join("%s line %s" % (t["fn"].name, t["ln"]) for t in tests)))
+
+
+def growth_only_under_needs_grow(F, maygc):
+    """kept for callers: (ok, text)"""
+    good, _tests, why = allocation_guards(F, maygc)
+    return good, why
+
+
+def needs_grow(F, k, cap, tests=None, maygc=None):
+    """does the k-th insertion of a new key into a map of capacity `cap` (holding k-1 entries) grow it? The growth tests
+    found by allocation_guards are evaluated as written; whether a test sees the count before or after the increment is
+    read from the position of `self.count += 1` relative to it."""
+    if tests is None:
+        from cao import rooting
+        good, tests, why = allocation_guards(F, maygc or rooting.MayGc(F))
+        if not good:
+            raise bs.Unknown(why)
+    grows = False
+    for t in tests:
+        seen = k if t["after_inc"] else k - 1
+        v = bool(FEv(F, t["fn"], {}, {"count": seen, "capacity": cap}).ev(t["cond"]))
+        if v == t["pol"]:
+            grows = True
+    return grows
 
 
 def inserts_on_fresh_table(F, f):
@@ -259,7 +457,7 @@ def decide_caller(F, maygc, f, lines):
         C, cexp = initial_capacity(F)
     except bs.Unknown as u:
         return False, "initial capacity of a fresh table not established (%s)" % u
-    okg, gexp = growth_only_under_needs_grow(F, maygc)
+    okg, tests, gexp = allocation_guards(F, maygc)
     if not okg:
         return False, gexp
     groups = inserts_on_fresh_table(F, f)
@@ -275,7 +473,7 @@ def decide_caller(F, maygc, f, lines):
         if g["other_mut"]:
             return False, "the fresh table is also mutated through %s" % g["other_mut"]
         try:
-            grow_at = [k for k in range(1, g["n"] + 1) if needs_grow(F, k, C)]
+            grow_at = [k for k in range(1, g["n"] + 1) if needs_grow(F, k, C, tests)]
         except bs.Unknown as u:
             return False, "needs_grow not understood (%s)" % u
         if grow_at:
@@ -368,55 +566,96 @@ def free_slot_after_resize(F, table_path, pot):
     return out
 
 
+def _touches_count(f):
+    """does f change `self.count` or hand out `&mut self.count` (the function that performs / prepares the insertion)?"""
+    for x in hir_walk(f.hir["body"]):
+        k = x.get("k")
+        if k in ("assign_op", "assign"):
+            l = hir_strip(x["l"])
+            if l is not None and l.get("k") == "field" and l["name"] == "count":
+                return True
+        elif k == "addr_of" and x.get("mutbl") in (True, "mut", "Mut"):
+            y = hir_strip(x["e"])
+            if y is not None and y.get("k") == "field" and y["name"] == "count":
+                return True
+    return False
+
+
+def growth_sites(F, table_path):
+    """The growth tests of the insertion functions of <table>: for every call of <table>::grow the nearest guard
+    (`if c { .. grow() .. }`, or an earlier `if !c { return .. }`). A test written in a helper that does not itself touch
+    the count ("make room") stands for one test per call site of the helper in the table's functions, seen from the
+    caller (whose `self.count += 1` decides which count the test sees).
+    -> list of dict(fn: function the test is attributed to, ln, tf: function the condition is written in, cond, pol,
+                    after_inc)"""
+    grow_name = table_path + "::grow"
+    fns = [f for f in F.fns if f.hir and not f.is_closure and f.short.startswith(table_path + "::") and f.short != grow_name]
+    out = []
+    for f in fns:
+        seen_if = set()
+        for x in hir_walk(f.hir["body"]):
+            if not (x.get("k") in ("mcall", "call") and any(n == grow_name for n in hir_callee(x))):
+                continue
+            gs = guards_of(f, x)
+            if not gs:
+                continue
+            cond, pol, ifn = gs[0]
+            if id(ifn) in seen_if:
+                continue
+            seen_if.add(id(ifn))
+            own_after = any(l is not None and l < (ifn.get("ln") or 0) for l in count_incs(f))
+            callers = []
+            if not _touches_count(f):
+                for g in fns:
+                    if g is f:
+                        continue
+                    for y in hir_walk(g.hir["body"]):
+                        if y.get("k") in ("mcall", "call") and any(n == f.short for n in hir_callee(y)):
+                            callers.append((g, y))
+            if callers:
+                for g, y in callers:
+                    after = own_after or any(l is not None and l < (y.get("ln") or 0) for l in count_incs(g))
+                    out.append({"fn": g, "ln": y.get("ln"), "tf": f, "cond": cond, "pol": pol, "after_inc": after})
+            else:
+                out.append({"fn": f, "ln": ifn.get("ln"), "tf": f, "cond": cond, "pol": pol, "after_inc": own_after})
+    return out
+
+
 def free_slot_after_insert(F, table_path, pot):
-    """For every `if <cond> { .. grow() .. }` in the insertion functions of <table>: in every small state (count < capacity)
-    in which the condition says "do not grow", the table still has a free slot AFTER the pending insertion
+    """For every growth test of the insertion functions of <table> (growth_sites): in every small state (count < capacity)
+    in which the test says "do not grow", the table still has a free slot AFTER the pending insertion
     (count + 1 < capacity). The condition is evaluated on the source expression (f32 arithmetic emulated, helper
     functions and constants followed); whether it sees the count before or after the increment is read from the
-    position of `self.count += 1` in the same function. -> list of (fn, ln, ok|bad|undecided, message)"""
+    position of `self.count += 1`. -> list of (fn, ln, ok|bad|undecided, message)"""
     out = []
-    grow_name = table_path + "::grow"
     caps = [2, 4, 8, 16, 32, 64] if pot else list(range(1, 41))
-    for f in F.fns:
-        if not f.hir or f.is_closure or not (f.short.startswith(table_path + "::")) or f.short in (grow_name,):
-            continue
-        incs = [x.get("ln") for x in hir_walk(f.hir["body"]) if x.get("k") == "assign_op" and str(x.get("op", "")).startswith("Add")
-                and hir_strip(x["l"]).get("k") == "field" and hir_strip(x["l"])["name"] == "count"]
-        for x in hir_walk(f.hir["body"]):
-            if x.get("k") != "if":
-                continue
-            if not any(y.get("k") in ("mcall", "call") and any(n == grow_name for n in hir_callee(y)) for y in hir_walk(x["then"])):
-                continue
-            # the innermost test decides
-            if any(y is not x and y.get("k") == "if" and any(z.get("k") in ("mcall", "call") and any(n == grow_name for n in hir_callee(z))
-                                                                 for z in hir_walk(y["then"])) for y in hir_walk(x["then"])):
-                continue
-            after_inc = any(l is not None and l < (x.get("ln") or 0) for l in incs)
-            bad_at = None
-            n = 0
-            try:
-                for c in caps:
-                    for c0 in range(0, c):
-                        seen = c0 + 1 if after_inc else c0
-                        fields = {"count": seen, "capacity": c}
-                        try:
-                            grow = bool(FEv(F, f, {}, fields).ev(x["cond"]))
-                        except bs.Overflow:
-                            continue
-                        n += 1
-                        if not grow and not (c0 + 1 < c):
-                            bad_at = (c0, c)
-                            break
-                    if bad_at:
+    for site in growth_sites(F, table_path):
+        f, tf, cond, pol, after_inc = site["fn"], site["tf"], site["cond"], site["pol"], site["after_inc"]
+        bad_at = None
+        n = 0
+        try:
+            for c in caps:
+                for c0 in range(0, c):
+                    seen = c0 + 1 if after_inc else c0
+                    fields = {"count": seen, "capacity": c}
+                    try:
+                        grow = bool(FEv(F, tf, {}, fields).ev(cond)) == pol
+                    except bs.Overflow:
+                        continue
+                    n += 1
+                    if not grow and not (c0 + 1 < c):
+                        bad_at = (c0, c)
                         break
-            except bs.Unknown as u:
-                out.append((f, x.get("ln"), "undecided", "growth condition not understood: %s" % u))
-                continue
-            if bad_at:
-                out.append((f, x.get("ln"), "bad",
-                            "%s does not grow a table of capacity %d that holds %d items before inserting one more: the insertion fills the "
-                            "last free slot, and a lookup of a handle/key that is not in the table then probes forever" % (f.name, bad_at[1], bad_at[0])))
-            else:
-                out.append((f, x.get("ln"), "ok", "whenever the growth test (seeing the count %s the increment) declines, a free slot remains after "
-                            "the insertion: %d small states" % ("after" if after_inc else "before", n)))
+                if bad_at:
+                    break
+        except bs.Unknown as u:
+            out.append((f, site["ln"], "undecided", "growth condition not understood: %s" % u))
+            continue
+        if bad_at:
+            out.append((f, site["ln"], "bad",
+                        "%s does not grow a table of capacity %d that holds %d items before inserting one more: the insertion fills the "
+                        "last free slot, and a lookup of a handle/key that is not in the table then probes forever" % (f.name, bad_at[1], bad_at[0])))
+        else:
+            out.append((f, site["ln"], "ok", "whenever the growth test (seeing the count %s the increment) declines, a free slot remains after "
+                        "the insertion: %d small states" % ("after" if after_inc else "before", n)))
     return out
